@@ -22,7 +22,7 @@ def anns(line):
 
 
 DEF_OPS = {"sink", "sink_co", "csink", "const", "never", "map", "map_to", "filter", "filter_opt", "merge", "or_else", "snapshot",
-           "snapshot1", "map_s", "map_sl", "gate", "once", "hold", "hold_lazy", "updates", "value", "map_c", "lift", "accum", "accum_lazy", "collect",
+           "snapshot1", "map_s", "map_sl", "gate", "once", "hold", "hold_lazy", "updates", "value", "map_c", "map_cmk", "lift", "accum", "accum_lazy", "collect",
            "collect_lazy", "switch_s", "switch_c", "sloop", "cloop", "defer", "split", "router", "route"}
 
 
@@ -278,7 +278,7 @@ class C05(FrpProp):
     level_text = "Theorems over the specification: switch_s follows the stream the outer cell held at the START of the transaction (effective next transaction, back and forth, same stream); switch_c's update in a switching transaction is the new inner's update or current value, otherwise the current inner's update; invariant: the switch_c cell always equals the cell currently held by the outer cell, preserved by every close over any history. Refine_*: switch_s is inside the proved engine fragment (its only dependency is the stream held at the start of the transaction, re-wired at commit); Props/K1.v: the program of the former known finding K1 (outer cell updated from the switch's own output; repaired in /repo) is acyclic and engine and specification agree on it. switch_c is inside the fragment too: the engine model has dynamic demands (a node may, from inside its update, bring another node up to date as a dependency - what switch_c's nested update_node2 does), tied exactly to the real engine at the raw level (C03 scripts with demanding nodes)."
     tag = "c05"
     profile = Profile(w=W(switch_s=10, switch_c=10, hold=8, map_c=6, defer=3, split=2, sloop=1, cloop=1), n_defs=(5, 14),
-                      n_txn=(5, 16), p_block=0.7, p_sample=0.5, p_post=0.1, p_def_in_txn=0.1)
+                      n_txn=(5, 16), p_block=0.7, p_sample=0.5, p_post=0.1, p_def_in_txn=0.25)
 
 
 def unlisten_oracle(lines, out):
